@@ -655,9 +655,10 @@ if 'sync_reloaded_open_files(context, open_files)' in _reindex_text():
 
 HANDLER_RULES = ASYNC + [('letchain-nest', {'optional': True}), ('c29-drop-wm-guard', {'optional': True}),
                          ('c29-shared-state', {'calls': (('file_path', 'exists'), ('analysis', 'get_file_id'), ('analysis', 'update_file_by_uri'),
+                                                         ('mut_analysis', 'get_file_id'),
                                                          ('mut_analysis', 'remove_file_by_uri'), ('mut_analysis', 'update_file_by_uri')),
                                                'callees': ('read_file_with_encoding',)}),
-                         'c29-ghost-param']
+                         ('write-guard-deref', {'optional': True}), 'c29-ghost-param']
 
 OPEN = {
     'src': {'file': TD, 'kind': 'fn', 'name': 'on_did_open_text_document'},
@@ -748,6 +749,10 @@ UNIT = {
         'reindex_task_step': REINDEX,
     },
     'extra_rules': [
+        ('write-guard-deref', r'\bmut_analysis(\s*)\.(compilation\b|get_file_id\()', r'mut_analysis.vx_deref()\1.\2',
+         'G.compilation / G.get_file_id(..) on the RwLockWriteGuard G of the analysis -> G.vx_deref().compilation / G.vx_deref().get_file_id(..): the '
+         'auto-deref of the method / field access made explicit (std: Deref for RwLockWriteGuard<T> returns the &T behind the lock); vx_deref is an '
+         'opaque shim returning &EmmyLuaAnalysis, whose read-side shims (get_file_id, compilation) are the ones the read guard uses (same rule as unit c27_order)'),
         ('c29-enum-pub', r'\Aenum ', 'pub enum ', 'visibility has no run-time meaning'),
         ('c29-struct-pub', r'\Astruct ', 'pub struct ', 'visibility has no run-time meaning'),
         ('c29-hashmap-filter-map-collect',
